@@ -1,10 +1,236 @@
-/- driver handler for component Model: requests whose first token belongs to it -/
+/-
+  driver handler for component Model (C08 / C20): the library's model builder, evaluator, export.
+
+    model <LOGIC> <mode> ## <seg> ## … ## end ## <query> ## …
+    readbranch <LOGIC> <mode> ## <seg> ## … ## end ## <query> ## …
+    fold <LOGIC> q|m E|U|M|L <value>*
+
+  seg (model):       hc <param>*                      observed iteration order of model.constants
+                     hp <w> (<idx> <sub> <arity>)*    observed order of frames[w].predicates
+                     sa <i> <s> <V> <w> | sp|so|sl|sv <sent> <V> <w> | ra <w1> <w2> | fin
+  seg (readbranch):  hc / hp as above, then the branch's nodes (see Ptx.Node.parse)
+  query:             data | racc | flags | ev <w> <sent> | cm <conclusion> ;; <premise> ;; …
+
+  answer: <outcome>,<outcome>,… | <answer of query 1> | …
+    outcome = ok | IllegalStateError | ModelValueError | DenotationError | KeyError | ValueError | NotImplementedError
+    data    = flat W= A= F0{at=… op=… pr=…}   |   modal W=0,1 A=0-1 F0{…} F1{…}
+    racc    = K=<keys sorted> R=<pairs sorted>
+    flags   = stable=<bool> specstable=<bool> same=<bool>      (about the enforce() of the successful finish)
+    ev      = <V> | <exception>
+    cm      = True | False | <exception>          (is_countermodel_to)
+  fold answer: prog=<V> graph=<V|none>
+-/
 import Ptx.Wire
+import Ptx.Sem.LibModel
+import Ptx.Gen.All
 namespace Ptx.Drv.Model
+open Ptx Ptx.Wire Ptx.LibModel
+
+def showOut : Option Err → String
+  | none => "ok"
+  | some e => e.toStr
+
+def showRes : Res V → String
+  | .ok v => v.toStr
+  | .error e => e.toStr
+
+def parseTriples : Toks → Option (List Pred)
+  | [] => some []
+  | i :: s :: a :: r => do
+      let ps ← parseTriples r
+      some (⟨← intTok i, ← natTok s, ← natTok a⟩ :: ps)
+  | _ => none
+
+def parseParamsAll : Toks → Option (List Param)
+  | [] => some []
+  | k :: i :: s :: r => do
+      let (p, _) ← parseParam [k, i, s]
+      let ps ← parseParamsAll r
+      some (p :: ps)
+  | _ => none
+
+inductive Seg where
+  | hc (cs : List (Nat × Nat))
+  | hp (w : Nat) (ps : List Pred)
+  | op (o : MOp)
+  | node (n : Node)
+
+/-- the last two tokens are value and world; the rest is the sentence -/
+def parseSVW (ts : Toks) : Option (Sent × V × Nat) := do
+  if ts.length < 3 then none else
+  let st := ts.take (ts.length - 2)
+  match parseSent st, ts.drop (ts.length - 2) with
+  | some (s, []), [v, w] => do some (s, ← V.ofStr v, ← natTok w)
+  | _, _ => none
+
+def parseSeg (ts : Toks) : Option Seg :=
+  match ts with
+  | "hc" :: r => do
+      let ps ← parseParamsAll r
+      some (.hc (constsOfTup ps))
+  | "hp" :: w :: r => do some (.hp (← natTok w) (← parseTriples r))
+  | ["sa", i, s, v, w] => do some (.op (.setAtomic (← natTok i) (← natTok s) (← V.ofStr v) (← natTok w)))
+  | "sp" :: r => do
+      let (s, v, w) ← parseSVW r
+      match s with
+      | .pred p ps => some (.op (.setPred p ps v w))
+      | _ => none
+  | "so" :: r => do let (s, v, w) ← parseSVW r; some (.op (.setOpaque s v w))
+  | "sl" :: r => do let (s, v, w) ← parseSVW r; some (.op (.setLiteral s v w))
+  | "sv" :: r => do let (s, v, w) ← parseSVW r; some (.op (.setValue s v w))
+  | ["ra", a, b] => do some (.op (.rAdd (← natTok a) (← natTok b)))
+  | ["fin"] => some (.op .finish)
+  | _ =>
+    match Node.parse ts with
+    | some (n, []) => some (.node n)
+    | _ => none
+
+def hintsOf (segs : List Seg) : Hints :=
+  segs.foldl (fun h s => match s with
+    | .hc cs => { h with consts := cs }
+    | .hp w ps => { h with preds := h.preds ++ [(w, ps)] }
+    | _ => h) {}
+
+def sortNat (xs : List Nat) : List Nat := sortByKey natKey xs
+def pairKey (p : Nat × Nat) : List Int := [(p.1 : Int), (p.2 : Int)]
+
+def showParamD : Param → String
+  | .const i s => s!"c.{i}.{s}"
+  | .var i s => s!"v.{i}.{s}"
+def showTup (t : Tup) : String := ",".intercalate (t.map showParamD)
+def showTups (ts : List Tup) : String := "[" ++ ";".intercalate (ts.map showTup) ++ "]"
+
+def showFrameData (d : FrameData) : String :=
+  "at=" ++ ",".intercalate (d.atomics.map fun (a, v) => s!"{a.1}.{a.2}:{v.toStr}") ++
+  " op=" ++ ",".intercalate (d.opaques.map fun (s, v) => "(" ++ showSent s ++ "):" ++ v.toStr) ++
+  " pr=" ++ " ".intercalate (d.preds.map fun pd =>
+      s!"{pd.pred.index}.{pd.pred.sub}.{pd.pred.arity}+" ++ showTups pd.ext ++ "-" ++
+        (match pd.anti with | none => "none" | some a => showTups a))
+
+def showData (d : Data) : String :=
+  if !d.modal then
+    "flat W= A= " ++ String.join (d.frames.map fun (w, f) => s!"F{w}" ++ "{" ++ showFrameData f ++ "}")
+  else
+    "modal W=" ++ ",".intercalate (d.worlds.map toString) ++
+    " A=" ++ ",".intercalate (d.access.map fun (a, b) => s!"{a}-{b}") ++
+    String.join (d.frames.map fun (w, f) => s!" F{w}" ++ "{" ++ showFrameData f ++ "}")
+
+def showRacc (R : Acc) : String :=
+  "K=" ++ ",".intercalate ((sortNat R.keys).map toString) ++
+  " R=" ++ ",".intercalate ((sortByKey pairKey R.pairs).map fun (a, b) => s!"{a}-{b}")
+
+def subset {α} [DecidableEq α] (xs ys : List α) : Bool := xs.all (ys.contains ·)
+def sameSet {α} [DecidableEq α] (xs ys : List α) : Bool := subset xs ys && subset ys xs
+
+/-- what `SerialAccess.enforce` is meant to produce, recomputed naively -/
+def serialSpecB (R R' : Acc) : Bool :=
+  let dead := R.keys.filter fun w => (R.succ w).isEmpty
+  if dead.isEmpty then R' == R else
+    let n := R.keys.foldl max 0 + 1
+    sameSet R'.pairs (R.pairs ++ dead.map (fun w => (w, n)) ++ [(n, n)]) && sameSet R'.keys (R.keys ++ [n])
+      && R'.keys.all fun w => !(R'.succ w).isEmpty
+
+/-- flags of the enforce() run by a successful finish from state `m0` -/
+def flagsOf (L : LogicData) (m0 : Model) : String :=
+  match completeFrames L m0 with
+  | .error _ => "stable=false specstable=false same=false"
+  | .ok m1 =>
+    let r := Acc.enforce L.frame m1.R
+    let (spec, same) : Bool × Bool := match L.frame with
+      | .none | .K => (true, r.1 == m1.R)
+      | .D => (true, serialSpecB m1.R r.1)
+      | k => (Frames.stable k m1.R.keys m1.R.pairs,
+              sameSet r.1.pairs (Frames.closure k m1.R.keys m1.R.pairs) && sameSet r.1.keys m1.R.keys)
+    s!"stable={r.2} specstable={spec} same={same}"
+
+structure St where
+  m : Model := Model.init
+  outs : List (Option Err) := []
+  pre : Option Model := none       -- state before the first successful finish
+
+def answer (L : LogicData) (st : St) (q : Toks) : String :=
+  match q with
+  | ["data"] => showData (getData L st.m)
+  | ["racc"] => showRacc st.m.R
+  | ["flags"] => (match st.pre with | some m0 => flagsOf L m0 | none => "none")
+  | "ev" :: w :: r =>
+    (match natTok w, parseSent r with
+     | some w, some (s, []) => showRes (valueOf L st.m s w)
+     | _, _ => "err:wire")
+  | "cm" :: r =>
+    -- cm <conclusion> ;; <premise> ;; …      (is_countermodel_to)
+    (match ((splitAt ";;" r).filter (· ≠ [])).mapM (fun g => match parseSent g with | some (s, []) => some s | _ => none) with
+     | some (c :: ps) =>
+       (match isCountermodelTo L st.m ⟨ps, c⟩ with
+        | .ok b => if b then "True" else "False"
+        | .error e => e.toStr)
+     | _ => "err:wire")
+  | _ => "err:wire"
+
+def finalise (L : LogicData) (st : St) (queries : List Toks) : String :=
+  " | ".intercalate (",".intercalate (st.outs.map showOut) :: queries.map (answer L st))
+
+def runModel (L : LogicData) (segs : List Seg) : St :=
+  let h := hintsOf segs
+  segs.foldl (fun st s => match s with
+    | .op o =>
+      let r := step L h st.m o
+      let pre := if o == MOp.finish && r.2.isNone && st.pre.isNone then some st.m else st.pre
+      { m := r.1, outs := st.outs ++ [r.2], pre := pre }
+    | _ => st) {}
+
+def runBranch (L : LogicData) (segs : List Seg) : St :=
+  let h := hintsOf segs
+  let nodes := segs.filterMap fun | .node n => some n | _ => none
+  let m0 := Model.init
+  match readNodes L nodes m0 nodes with
+  | (m, some e) => { m := m, outs := [some e] }
+  | (m, none) =>
+    let r := finish L h m
+    { m := r.1, outs := [r.2], pre := if r.2.isNone then some m else none }
+
+def splitEnd (groups : List Toks) : List Toks × List Toks :=
+  let segs := groups.takeWhile (· ≠ ["end"])
+  (segs, (groups.drop (segs.length + 1)))
+
+def foldReq (L : LogicData) (kind tok : String) (vs : Toks) : String :=
+  match vs.mapM V.ofStr with
+  | none => "err:wire"
+  | some xs =>
+    match kind, tok with
+    | "q", "E" | "q", "U" =>
+      let q : Quant := if tok == "E" then .ex else .univ
+      s!"prog={(foldQV L q xs).toStr} graph=" ++
+        (match L.T.qf.lookup (q, L.T.canon xs) with | some v => v.toStr | none => "none")
+    | "m", "M" | "m", "L" =>
+      let o : Op1 := if tok == "M" then .poss else .nec
+      s!"prog={(foldMV L o xs).toStr} graph=" ++
+        (match L.T.mf.lookup (o, L.T.canon xs) with | some v => v.toStr | none => "none")
+    | _, _ => "err:wire"
 
 /-- `none` = not my request -/
 def handle (ts : List String) : Option String :=
   match ts with
+  | "model" :: lg :: _mode :: "##" :: rest =>
+    some <| match Gen.byName lg with
+    | none => "err:logic"
+    | some L =>
+      let (segs, queries) := splitEnd ((splitAt "##" rest).filter (· ≠ []))
+      match segs.mapM parseSeg with
+      | none => "err:wire"
+      | some segs => finalise L (runModel L segs) queries
+  | "readbranch" :: lg :: _mode :: "##" :: rest =>
+    some <| match Gen.byName lg with
+    | none => "err:logic"
+    | some L =>
+      let (segs, queries) := splitEnd ((splitAt "##" rest).filter (· ≠ []))
+      match segs.mapM parseSeg with
+      | none => "err:wire"
+      | some segs => finalise L (runBranch L segs) queries
+  | "fold" :: lg :: kind :: tok :: vs =>
+    some <| match Gen.byName lg with
+    | none => "err:logic"
+    | some L => foldReq L kind tok vs
   | _ => none
 
 end Ptx.Drv.Model
